@@ -396,6 +396,10 @@ STRUCTS = {
               source=None, comment=None, droop=[], ids=False, ballots=[[[4], [1]], [[1, 4], [2, 3]], [[2], [4], [3]], [[4, 4]]]),
 }
 STRUCTS['E']['ballots'][3] = [[4], [4]] and [[4]]      # a ballot naming only the withdrawn candidate
+# both withdrawal syntaxes in one header, and two separate [undeclared] options
+STRUCTS['F'] = dict(n=5, seats=2, names=['A', 'B', 'C', 'D', 'E'], title='T', nicks=None, tie=[2, 3, 1, 5, 4], withdrawn=[2, 4], wd_style='both',
+                    undeclared=[1, 5], und_style='two', source=None, comment=None, droop=[], ids=False,
+                    ballots=[[[1], [2], [3]], [[2], [4]], [[4], [2], [5]], [[3, 4], [2], [1]], [[5]], [[3]]])
 
 
 def expected_structure(T, mvals):
@@ -471,10 +475,17 @@ def render_struct(T, gap_positions, symrefs=None):
     if T['withdrawn']:
         if T['wd_style'] == '-n':
             lines.append(['-%d' % c for c in T['withdrawn']])
+        elif T['wd_style'] == 'both':
+            lines.append(['-%d' % T['withdrawn'][0]])
+            lines.append(['[withdrawn'] + [ref(c) for c in T['withdrawn'][1:]] + [']'])
         else:
             lines.append(['[withdrawn'] + [ref(c) for c in T['withdrawn']] + [']'])
     if T['undeclared']:
-        lines.append(['[undeclared'] + [ref(c) for c in T['undeclared']] + [']'])
+        if T.get('und_style') == 'two':
+            for c in T['undeclared']:
+                lines.append(['[undeclared', ref(c), ']'])
+        else:
+            lines.append(['[undeclared'] + [ref(c) for c in T['undeclared']] + [']'])
     if T['droop']:
         lines.append(['[droop'] + T['droop'][:-1] + [T['droop'][-1] + ']'])
     for i, rk in enumerate(T['ballots']):
@@ -512,7 +523,8 @@ def render_struct(T, gap_positions, symrefs=None):
         lines[gp] = lines[gp] + [c]
     # a comment block of several lines, quoting ballot-like and name-like lines (inserted after the given lines, last first)
     for g in sorted(blocks, reverse=True):
-        lines[g + 1:g + 1] = [['/*', 'rejected', 'papers:'], ['2', '1', '3', '0'], ['0'], ['"x"', '/*', 'nested', '*/'], ['7', '*/']]
+        lines[g + 1:g + 1] = [['/*', 'rejected', 'papers:'], ['2', '1', '3', '0'], ['0'], ['"x"', '/*', 'nested', '*/'], ['7', '*/'],
+                              ['/*', 'precinct', '#', '7', '*/'], ['/*', 'a', '/*', 'b', '#1', '*/', 'c', '*/']]
     return lines, syms, mults
 
 
